@@ -442,8 +442,8 @@ class Replay:
                 self.features.add("dry-run")
             if len(el) > 1:
                 self.features.add("multiple-expressions")
-        if results["warm"][0] == results["fresh"][0] and results["warm"][1:] != results["fresh"][1:]:
-            self.stats["warm_fresh_differ"] += 1
+        if not ns and results["warm"][0] == results["fresh"][0] and results["warm"][1:] != results["fresh"][1:]:
+            self.stats["warm_fresh_differ"] += 1      # same archive, same scanning command, different result
 
     def run(self):
         self.setup()
@@ -609,7 +609,7 @@ def main():
     # (A) + generation, all TLC runs side by side
     exh_cfg = "ArchiveRetention.cfg" if quick else "ArchiveRetention_thorough.cfg"
     ngen = 4
-    num = 200 if quick else 2000
+    num = 150 if quick else 1500
     ndirected = 8                      # world instantiations per TLC counterexample
     big, small = min(8, WORKERS), min(2, WORKERS)
     jobs = {
